@@ -93,5 +93,7 @@ pub mod site {
     pub const T1: u32 = 18;
     pub const T2: u32 = 19;
     pub const Q1: u32 = 20;
-    pub const COUNT: u32 = 21;
+    /// between the two field loads of `TearableAtomicTime::tearable_load`
+    pub const T3: u32 = 21;
+    pub const COUNT: u32 = 22;
 }
